@@ -194,6 +194,8 @@ pub fn run_history(ops: &[Op], full_sweeps: bool) -> (String, String, Result<(),
 pub fn gen(seed: u64, thorough: bool, only: Option<u64>, out: &mut Out) {
   let mut hists: Vec<Vec<Op>> = vec![];
   let mut r = Prng::for_case(seed, "C10", 0);
+  // a short history that the in-kernel anchor can afford
+  hists.push(vec![Op::Eval(vec![5]), Op::Punct(vec![5]), Op::Eval(vec![5]), Op::Eval(vec![133])]);
   // every single puncture followed by sibling/cousin evaluations
   let singles: Vec<u8> = if thorough { (0..=255).collect() } else { (0..=255).step_by(5).collect() };
   for x in singles {
